@@ -93,7 +93,33 @@ impl Planner {
             self.filler(ser - 24);
         }
     }
-    /// Bring the cursor exactly to `target` (absolute). Returns false if unreachable.
+    /// Payload size N of a filler append (24 + N serialized bytes) that moves the cursor from
+    /// `cur` exactly to `goal`, if there is one (the end cursor is strictly increasing in N).
+    fn solve(cur: usize, goal: usize) -> Option<usize> {
+        if goal <= cur {
+            return None;
+        }
+        let (mut lo, mut hi) = (0usize, goal - cur);
+        while lo <= hi {
+            let mid = (lo + hi) / 2;
+            let end = advance(cur, 24 + mid);
+            if end == goal {
+                return Some(mid);
+            }
+            if end < goal {
+                lo = mid + 1;
+            } else {
+                if mid == 0 {
+                    break;
+                }
+                hi = mid - 1;
+            }
+        }
+        None
+    }
+
+    /// Bring the cursor exactly to `target` (absolute) with at most four filler appends (breadth
+    /// first over a few intermediate block starts). Returns false if unreachable.
     pub fn fill_to(&mut self, target: usize) -> bool {
         if self.cur == target {
             return true;
@@ -101,58 +127,38 @@ impl Planner {
         if self.cur > target {
             return false;
         }
-        let t = target % BLOCK;
-        if (1..=7).contains(&t) {
-            return false;
-        }
-        let target_block_start = target - t;
-        let need_span = t != 0 && t < 31;
-        if self.cur >= target_block_start {
-            // same block as the target
-            let d = target - self.cur;
-            if d >= 31 {
-                self.filler(d - 31);
-            }
-            return self.cur == target;
-        }
-        let stop_at = if need_span {
-            if target_block_start < BLOCK {
-                return false;
-            }
-            target_block_start - BLOCK
-        } else {
-            target_block_start
-        };
-        if self.cur > stop_at {
-            // in the block before the target's block: one spanning entry
-            let rem = BLOCK - self.cur % BLOCK;
-            if rem >= FRAME_HDR {
-                let ser = (rem - FRAME_HDR) + (t - FRAME_HDR);
-                if ser >= 24 {
-                    self.filler(ser - 24);
+        let mut frontier: Vec<(usize, Vec<usize>)> = vec![(self.cur, vec![])];
+        for _depth in 0..4 {
+            let mut next: Vec<(usize, Vec<usize>)> = vec![];
+            for (cur, path) in &frontier {
+                let mut goals: Vec<usize> = vec![target];
+                let first_block = cur / BLOCK + 1;
+                let last_block = target / BLOCK;
+                for b in [first_block, first_block + 1, last_block.saturating_sub(1), last_block] {
+                    let g = b * BLOCK;
+                    if g > *cur && g < target && !goals.contains(&g) {
+                        goals.push(g);
+                    }
+                }
+                for g in goals {
+                    if let Some(n) = Planner::solve(*cur, g) {
+                        let mut p = path.clone();
+                        p.push(n);
+                        if g == target {
+                            for n in p {
+                                self.filler(n);
+                            }
+                            return self.cur == target;
+                        }
+                        if !next.iter().any(|(c, _)| *c == g) {
+                            next.push((g, p));
+                        }
+                    }
                 }
             }
-            return self.cur == target;
+            frontier = next;
         }
-        if self.cur % BLOCK != 0 {
-            self.align_block();
-        }
-        while self.cur < stop_at {
-            self.filler(BLOCK - 31);
-        }
-        if self.cur != stop_at {
-            return false;
-        }
-        if t == 0 {
-            return true;
-        }
-        if need_span {
-            let ser = (BLOCK - FRAME_HDR) + (t - FRAME_HDR);
-            self.filler(ser - 24);
-        } else {
-            self.filler(t - 31);
-        }
-        self.cur == target
+        false
     }
     pub fn seed(self, name: &str) -> Seed {
         Seed {
@@ -412,5 +418,52 @@ pub fn straddle_seeds() -> Vec<Seed> {
     [(3usize, 0usize), (3, 7), (3, 10), (2, 0)]
         .iter()
         .filter_map(|(b, k)| seed_straddle(*b, *k))
+        .collect()
+}
+
+/// b has one old record in file 0, a has records in every file 0..n-1, the filler is empty: a
+/// truncate of a reclaims nothing (b pins file 0), the following truncate of b makes n-1 files
+/// reclaimable at once.
+pub fn seed_many_files(n: usize) -> Seed {
+    let mut p = Planner::new();
+    p.push(Op::Create(QA)).push(Op::Create(QB)).push(Op::Create(QF)).push(s3(QB));
+    for f in 1..n {
+        p.push(s3(QA));
+        p.fill_to(f * FILE);
+    }
+    p.push(s3(QA));
+    p.push(Op::Trunc { q: QF, at: Tr::Last });
+    p.seed(&format!("many-files:b@0,a@0..{}", n - 1))
+}
+
+/// A single WAL file in which nothing retained lives any more (every queue emptied by
+/// truncation while there was nothing to collect), cursor `r` bytes before its end: the next
+/// append or create rolls over WITHOUT a GC pass, so the following `open` is the one that has
+/// files to delete.
+pub fn seed_all_dead_single_file(r: usize) -> Option<Seed> {
+    let mut p = Planner::new();
+    // (queue b is deliberately not created: creating it later is the one call that can roll
+    // over without a GC pass and without holding the old file)
+    p.push(Op::Create(QA))
+        .push(Op::Create(QF))
+        .push(s3(QA))
+        .push(s3(QA));
+    let target = FILE - r;
+    let before = target.checked_sub(2 * 19)?;
+    if !p.fill_to(before) {
+        return None;
+    }
+    p.push(Op::Trunc { q: QF, at: Tr::Last });
+    p.push(Op::Trunc { q: QA, at: Tr::Last });
+    if p.cur != target {
+        return None;
+    }
+    Some(p.seed(&format!("all-dead-single-file:cursor@file0end-{}", r)))
+}
+
+pub fn all_dead_seeds() -> Vec<Seed> {
+    [0usize, 8, 10, 19, 30]
+        .iter()
+        .filter_map(|r| seed_all_dead_single_file(*r))
         .collect()
 }
